@@ -412,3 +412,34 @@ def fantasy_model(rng, model, desc, test_x, cell, level=1):
 
 class Rejected(Exception):
     """The real code (or the scenario's precondition) refuses this configuration: counted, not a failure."""
+
+
+# ------------------------------------------------------------------ call structure (ExactGP.__call__ around the algebra)
+
+def recording_gp(train_x, train_y, tasks=0, nonmvn=False):
+    """A small exact GP (RBF kernel, constant mean, Gaussian likelihood; float64) whose `forward` records the inputs it
+    is called with (`model.seen`: list of tensors) — the only way to observe which inputs `ExactGP.__call__` hands to
+    the prior.  `nonmvn`: forward returns something that is not a MultivariateNormal (for the settings.debug check)."""
+    import torch
+    import gpytorch
+
+    class RecGP(gpytorch.models.ExactGP):
+        def __init__(self, x, y, lik):
+            super().__init__(x, y, lik)
+            self.mean_module = gpytorch.means.ConstantMean()
+            self.covar_module = gpytorch.kernels.RBFKernel()
+            self.seen = []
+
+        def forward(self, x):
+            self.seen.append(x)
+            if nonmvn:
+                return torch.distributions.Normal(self.mean_module(x), torch.ones_like(self.mean_module(x)))
+            return gpytorch.distributions.MultivariateNormal(self.mean_module(x), self.covar_module(x))
+
+    lik = gpytorch.likelihoods.GaussianLikelihood()
+    model = RecGP(train_x, train_y, lik).double()
+    lik.double()
+    model.mean_module.initialize(constant=0.3)
+    model.covar_module.lengthscale = 0.9
+    lik.noise = 0.2
+    return model, lik
